@@ -164,21 +164,29 @@ impl Property for C06 {
             // a long history in which every piece of noise starts a container or a word
             for p in case.pieces.iter_mut() {
                 if p.kind == Kind::Garbage {
-                    let t: &[u8] = if pol == Policy::Panic && rng.chance(1, 2) { *rng.pick(BROKEN_WORDS) } else { *rng.pick(BROKEN_STARTS) };
-                    let mut g = vec![b'\n'];
+                    let word = rng.chance(1, 2);
+                    let t: &[u8] = if word { *rng.pick(BROKEN_WORDS) } else { *rng.pick(BROKEN_STARTS) };
+                    // (the pinned tree's diagnostic for a broken word quotes the byte that
+                    // follows it: where diagnostics are printed that byte is a blank)
+                    let d = if word && matches!(pol, Policy::Stderr | Policy::Stdout) { b' ' } else { b'\n' };
+                    let mut g = vec![d];
                     g.extend_from_slice(t);
-                    g.push(b'\n');
+                    g.push(d);
                     p.bytes.0 = g;
                 }
             }
         }
-        if pol == Policy::Panic && rng.chance(1, 4) {
-            if let Some(p) = case.pieces.iter_mut().find(|p| p.kind == Kind::Garbage) {
+        if rng.chance(1, 4) {
+            // one piece of noise is a word or a number that stops before it is complete
+            let garbage: Vec<usize> = (0..case.pieces.len()).filter(|i| case.pieces[*i].kind == Kind::Garbage).collect();
+            if !garbage.is_empty() {
+                let i = if pol == Policy::Panic { garbage[0] } else { *rng.pick(&garbage) };
                 let t: &[u8] = *rng.pick(BROKEN_WORDS);
-                let mut g = vec![b'\n'];
+                let d = if matches!(pol, Policy::Stderr | Policy::Stdout) { b' ' } else { b'\n' };
+                let mut g = vec![d];
                 g.extend_from_slice(t);
-                g.push(b'\n');
-                p.bytes.0 = g;
+                g.push(d);
+                case.pieces[i].bytes.0 = g;
             }
         }
         if count_kind(&case.pieces, Kind::Garbage) == 0 && rng.chance(3, 4) {
